@@ -211,6 +211,10 @@ pub trait BitSink: Sized {
         val: T,
         bits_per_sample: usize,
     ) -> Result<(), Self::Error> {
+        if bits_per_sample == 0 {
+            // a zero-width field holds no bits (as `write_msbs(_, 0)`).
+            return Ok(());
+        }
         let val: i64 = val.into();
         let shifted = (val << (64 - bits_per_sample)) as u64;
         self.write_msbs(shifted, bits_per_sample)
